@@ -48,6 +48,7 @@ FIXED = [
  ("fix: a where clause with a few dozen equality conditions", "C19", "TestFixedC19ConditionPowerSet", "a where clause with n equality (or map includes) conditions made the cache try all 2^n subsets of them as indexes: 22 conditions took 4.5 s and 900 MB, 30 exhaust the memory of the machine - one syntactically valid transact request (select, update, mutate, delete or wait) killed the server; found while confirming seeded change C19-r5 (preallocated power set)"),
  ("fix: Transact panicked (send on closed channel)", "C18", "TestFixedC18TrafficSeenClosed", "with WithInactivityCheck, transact() reported a reply to the inactivity prober by a blocking send on a channel that handleDisconnectNotification closes: a connection lost right after a transact reply made Transact panic in the caller (send on closed channel), or block until then holding rpcMutex; found as a data race closechan/chansend by TestC18Concurrent once it drew the inactivity option"),
  ("fix: an 'update' notification that modifies a row", "C18", "TestFixedC18UpdateOfUnknownRow", "TableCache.Populate (RFC 7047 'update' notifications) cloned a nil model when a notification modified a row the cache does not hold and panicked in the client's read loop (Populate2 has the guard): a Monitor call with the plain 'monitor' method given up by its context leaves a monitor registered at the server, and the next foreign update of that table killed the application; found by TestC14Partial's first run"),
+ ("fix: data race on the endpoint list", "C18", "TestFixedC18EndpointListRace race=1", "handleDisconnectNotification read o.endpoints[0] for a log line after releasing rpcMutex while a Connect call of the application rewrites the list under the lock (moveEndpointFirst): data race reported by TestC18Concurrent on a busy machine in about one shard run in fifteen; pinned with the pause point disconnect:unlocked"),
  ("fix: commit, comment and assert", "C19", "TestFixedC19DegenerateOps", "commit/comment/assert operations carrying a table but not their member dereferenced nil"),
 ]
 log = subprocess.run(["git","-C","/repo","log","--format=%h %s"],capture_output=True,text=True).stdout.splitlines()
